@@ -305,6 +305,19 @@ func runC06(c *fw.Ctx) {
 			} else {
 				c.Count("shared_rejected", 1)
 			}
+			// the rejection does not depend on restorer options: the same with Extras
+			fx, _ := decorator.Parse(sh.src)
+			sh.do(fx, false)
+			sigx, _ := fw.Try(func() {
+				rs := decorator.NewRestorer()
+				rs.Extras = true
+				rs.RestoreFile(fx)
+			})
+			if sigx == "" {
+				c.Violate("shared-node-accepted", "shared-node-accepted:extras:"+sh.name, "a tree with one node at two places ("+sh.name+") was restored without panic by a restorer with Extras set", sh.src)
+			} else {
+				c.Count("shared_rejected_with_extras", 1)
+			}
 			// clone in the second place: prints
 			f2, _ := decorator.Parse(sh.src)
 			sh.do(f2, true)
